@@ -21,6 +21,7 @@ RULE = (
     "by the reference model (dense numpy completion). Non-trivial = nnz>=2 and at least one of: >=2 non-empty "
     "chunks, a diagonal and an off-diagonal pixel, a non-fixed layout, an extra value column, a non-default "
     "dtype or filter. Distinct by sha1 of the canonical case."
+    ' Also: input frames whose row labels are not a fresh RangeIndex (reversed, permuted, gappy, strings); optional input checks switched off in any combination on valid input; arguments equal to documented defaults left out; a CLI part in which metadata (JSON file incl. exponent-form floats) and assembly are given through `cooler load` / `cooler cload pairs --metadata --assembly`.'
 )
 ASSUMPTIONS = [
     "pixel input is sorted by (bin1_id, bin2_id) and upper-triangular in symmetric mode, as create_cooler documents for ordered input",
